@@ -4,11 +4,31 @@ package main
 
 import (
 	"fmt"
+	"io"
+	"runtime"
 	"strconv"
 	"strings"
 
+	"rare/pkg/extractor"
+	"rare/pkg/extractor/batchers"
 	"rare/pkg/readahead"
 )
+
+// c04CountingReader wraps the scripted reader and counts Read calls with an empty destination
+// (the io.Reader contract allows those to return 0, nil for ever: a scanner must never issue one).
+type c04CountingReader struct {
+	r         io.Reader
+	zeroDest  int
+	readCalls int
+}
+
+func (c *c04CountingReader) Read(p []byte) (int, error) {
+	c.readCalls++
+	if len(p) == 0 {
+		c.zeroDest++
+	}
+	return c.r.Read(p)
+}
 
 func c04Run(f []string) string {
 	switch f[0] {
@@ -42,6 +62,89 @@ func c04Run(f []string) string {
 			d = 1
 		}
 		return fmt.Sprintf("ok errs=%d done=%d t=%s r=%s", errs, d, HexList(atReturn), HexList(held))
+	}
+	switch f[0] {
+	case "dropcr":
+		in := append([]byte{}, UnHex(f[1])...)
+		keep := append([]byte{}, in...)
+		out := readahead.VerifDropCR(in)
+		same := 1
+		if string(in) != string(keep) {
+			same = 0 // dropCR must not write to its argument
+		}
+		return fmt.Sprintf("ok %s unchanged=%d", Hex(out), same)
+	case "maxi":
+		a, _ := strconv.Atoi(f[1])
+		b, _ := strconv.Atoi(f[2])
+		return fmt.Sprintf("ok %d", readahead.VerifMaxi(a, b))
+	case "rl":
+		// the ReadLine() API: call it until it answers nil; count Reads with an empty destination
+		size, _ := strconv.Atoi(f[2])
+		data := append([]byte{}, UnHex(f[3])...)
+		rd := &scriptedReader{rest: data, script: parseScript(f[4])}
+		cr := &c04CountingReader{r: rd}
+		var readLine func() []byte
+		errs := 0
+		if f[1] == "imm" {
+			sc := readahead.NewImmediate(cr, size)
+			sc.OnError(func(error) { errs++ })
+			readLine = sc.ReadLine
+		} else {
+			sc := readahead.NewBuffered(cr, size)
+			sc.OnError(func(error) { errs++ })
+			readLine = sc.ReadLine
+		}
+		var held, atReturn [][]byte
+		limit := len(data) + len(rd.script) + 3
+		done := 0
+		for i := 0; i < limit; i++ {
+			l := readLine()
+			if l == nil {
+				done = 1
+				break
+			}
+			held = append(held, l)
+			atReturn = append(atReturn, append([]byte{}, l...))
+		}
+		after := 0 // once nil, always nil
+		if done == 1 && readLine() == nil && readLine() == nil {
+			after = 1
+		}
+		return fmt.Sprintf("ok errs=%d done=%d t=%s r=%s z=%d again=%d", errs, done, HexList(atReturn), HexList(held), cr.zeroDest, after)
+	case "sync":
+		// the real syncReaderToBatcher (per-file loop of OpenFilesToChan) over a scripted reader; every batch is
+		// held until the channel closes, then re-read (late) and compared with what it held on arrival
+		batchSize, _ := strconv.Atoi(f[1])
+		data := append([]byte{}, UnHex(f[2])...)
+		rd := &scriptedReader{rest: data, script: parseScript(f[3])}
+		b := batchers.VerifSyncReaderToChan("src", rd, batchSize, 1)
+		var held []extractor.InputBatch
+		var onArrival []string
+		render := func(ib extractor.InputBatch) string {
+			ls := make([][]byte, len(ib.Batch))
+			for i, l := range ib.Batch {
+				ls[i] = l
+			}
+			return fmt.Sprintf("%d:%s:%s", ib.BatchStart, ib.Source, HexList(ls))
+		}
+		for ib := range b.BatchChan() {
+			held = append(held, ib)
+			onArrival = append(onArrival, render(ib))
+		}
+		runtime.GC()
+		var late []string
+		for _, ib := range held {
+			late = append(late, render(ib))
+		}
+		stable := 1
+		if strings.Join(late, "|") != strings.Join(onArrival, "|") {
+			stable = 0
+		}
+		out := "."
+		if len(late) > 0 {
+			out = strings.Join(late, "|")
+		}
+		return fmt.Sprintf("ok errs=%d stable=%d b=%s", b.ReadErrors(), stable, out)
 	}
 	return "bad-op"
 }
@@ -107,6 +210,7 @@ func c04Gen(r *Rand, tier string) []string {
 		}
 		out = append(out, fmt.Sprintf("%s %d %s %s", kind, size, Hex(data), sc))
 	}
+	out = append(out, c04GenMore(r, tier)...)
 	if tier == "thorough" {
 		// exhaustive: all strings over {a,\n,\r} up to length 6 x buffer sizes 1..4 x one-byte reads / all-at-once
 		var rec func(cur []byte)
@@ -130,11 +234,136 @@ func c04Gen(r *Rand, tier string) []string {
 	return out
 }
 
+// c04GenMore: round-4 cases – the helper ops, the ReadLine API, syncReaderToBatcher, long stalls (more
+// consecutive 0-byte reads than bufio's limit of 100), regrow chains (lines many times the buffer), a
+// delimiter / CR at every position relative to the buffer end, (n>0, err) exactly at a full buffer.
+func c04GenMore(r *Rand, tier string) []string {
+	var out []string
+	n := 400
+	if tier == "thorough" {
+		n = 12000
+	}
+	alpha := []byte{'a', '\n', '\r', 'b', '\n', '\r'}
+	rndData := func(ln int) []byte {
+		d := make([]byte, ln)
+		for j := range d {
+			if r.Chance(1, 12) {
+				d[j] = byte(r.Intn(256))
+			} else {
+				d[j] = Pick(r, alpha)
+			}
+		}
+		return d
+	}
+	rndScript := func(ln int) string {
+		ns := r.Intn(ln + 3)
+		if r.Chance(1, 4) {
+			return "."
+		}
+		var steps []string
+		errAt := -1
+		if r.Chance(1, 2) {
+			errAt = r.Intn(ns + 1)
+		}
+		for j := 0; j < ns; j++ {
+			want := r.Intn(5)
+			if r.Chance(1, 8) {
+				want = r.Intn(40)
+			}
+			e := "n"
+			if j == errAt {
+				e = Pick(r, []string{"e", "f", "f"})
+			}
+			steps = append(steps, fmt.Sprintf("%d:%s", want, e))
+			if j == errAt {
+				break
+			}
+		}
+		if len(steps) == 0 {
+			return "."
+		}
+		return strings.Join(steps, ",")
+	}
+	for i := 0; i < n; i++ {
+		switch r.Intn(8) {
+		case 0: // dropCR
+			d := rndData(r.Intn(6))
+			if r.Chance(1, 2) {
+				d = append(d, '\r')
+			}
+			if r.Chance(1, 6) {
+				d = append(d, '\r', '\r')
+			}
+			out = append(out, "dropcr "+Hex(d))
+		case 1:
+			out = append(out, fmt.Sprintf("maxi %d %d", r.Range(0, 70000), r.Range(0, 70000)))
+		case 2, 3: // ReadLine API
+			kind, size := "imm", Pick(r, []int{1, 2, 3, 4, 7, 16, 64})
+			if r.Chance(1, 2) {
+				kind = "buf"
+				if size < 2 {
+					size = 2
+				}
+			}
+			d := rndData(r.Intn(3*size + 4))
+			out = append(out, fmt.Sprintf("rl %s %d %s %s", kind, size, Hex(d), rndScript(len(d))))
+		case 4: // long stall, then data
+			kind, size := "imm", Pick(r, []int{1, 2, 5})
+			if r.Chance(1, 3) {
+				kind, size = "buf", size+1
+			}
+			d := rndData(r.Range(1, 12))
+			stall := strings.Repeat("0:n,", r.Range(101, 260))
+			tail := Pick(r, []string{"1:n", "3:n,0:n,2:f", "2:e", "64:n"})
+			out = append(out, fmt.Sprintf("%s %d %s %s%s", kind, size, Hex(d), stall, tail))
+		case 5: // regrow chain: one line many times the buffer, delivered in odd chunks
+			kind, size := "imm", Pick(r, []int{1, 2, 3})
+			if r.Chance(1, 2) {
+				kind, size = "buf", size+1
+			}
+			ln := r.Range(20, 90)
+			d := make([]byte, 0, ln+4)
+			for j := 0; j < ln; j++ {
+				d = append(d, byte('a'+j%26))
+			}
+			d = append(d, Pick(r, []string{"\n", "\r\n", "", "\r", "\n\r", "\r\nxy"})...)
+			out = append(out, fmt.Sprintf("%s %d %s %s", kind, size, Hex(d), rndScript(ln)))
+		case 6: // "\r\n" (or a lone '\r' / '\n') at every offset relative to the buffer end; (n>0,err) at the boundary
+			kind, size := "imm", Pick(r, []int{2, 3, 4, 8})
+			if r.Chance(1, 2) {
+				kind = "buf"
+			}
+			pos := r.Range(0, 2*size+1)
+			d := []byte(strings.Repeat("a", pos))
+			d = append(d, Pick(r, []string{"\r\n", "\r", "\n", "\r\r\n", "\n\n"})...)
+			d = append(d, rndData(r.Intn(size+2))...)
+			sc := Pick(r, []string{".", fmt.Sprintf("%d:n,1:n,1:n,1:n", pos), fmt.Sprintf("%d:f", size), fmt.Sprintf("%d:n,%d:f", size, size),
+				fmt.Sprintf("%d:e", pos+1), fmt.Sprintf("%d:n,0:f", pos+1), fmt.Sprintf("%d:n,0:n,0:e", size)})
+			out = append(out, fmt.Sprintf("%s %d %s %s", kind, size, Hex(d), sc))
+		case 7: // syncReaderToBatcher
+			d := rndData(r.Intn(60))
+			out = append(out, fmt.Sprintf("sync %d %s %s", Pick(r, []int{1, 1, 2, 3, 5, 1000}), Hex(d), rndScript(len(d))))
+		}
+	}
+	return out
+}
+
 func c04Stats(cases []string) map[string]int {
 	st := map[string]int{}
 	for _, c := range cases {
 		f := strings.Fields(c)
 		st["kind."+f[0]]++
+		switch f[0] {
+		case "dropcr", "maxi":
+			continue
+		case "rl":
+			f = f[1:]
+		case "sync":
+			f = []string{"sync", "131072", f[2], f[3]}
+		}
+		if strings.Count(f[3], "0:n") > 100 {
+			st["script.stallOver100"]++
+		}
 		if strings.Contains(f[3], ":f") {
 			st["script.fail"]++
 		}
